@@ -20,6 +20,7 @@ PPID = 1            # its parent (init)
 CHILD = 5001        # a live child
 CHILD2 = 5002       # a second child (a zombie child, as reaped children usually are for a moment)
 OTHER = 77          # unrelated process
+GRANDCHILD = 5003   # child of CHILD (seen by children(recursive=True))
 NAME = b"proc-0123456789"          # 15 bytes: Process.name() consults cmdline()
 DEL_FD = "3"                       # live kind: this descriptor's target, exe and cwd end in " (deleted)"
 MAPS_DEL = ("lib.so (deleted)",)   # live kind: mapped file of smaps whose path ends in " (deleted)"
@@ -111,6 +112,7 @@ def build_tree(root, files_dir, kind):
     proc(OTHER, b"other", b"S (sleeping)", PPID, 4000)
     proc(CHILD, b"kid", b"S (sleeping)", PID, 6000)
     proc(CHILD2, b"kidz", b"Z (zombie)", PID, 6100)
+    proc(GRANDCHILD, b"grandkid", b"S (sleeping)", CHILD, 6200)
     state = b"Z (zombie)" if kind == "zombie" else b"S (sleeping)"
     d = proc(PID, NAME, state, PPID, START)
 
@@ -241,6 +243,8 @@ class World(Shim):
         self.kind = kind
         self.pdir = os.path.join(root, str(PID))
         self.vanish = None
+        self.ovanish = {}            # other pid -> access index from which it is gone
+        self.ogone = set()
         self.deny = {}
         self.gone = False
         self.busy = False
@@ -276,7 +280,18 @@ class World(Shim):
     def _fault(self, kind, p, idx):
         if self.vanish is not None and idx >= self.vanish:
             self.remove_now()
+        for pid, k in self.ovanish.items():
+            if idx >= k and pid not in self.ogone:
+                self.ogone.add(pid)
+                self.busy = True
+                try:
+                    shutil.rmtree(os.path.join(self.root, str(pid)), ignore_errors=True)
+                finally:
+                    self.busy = False
         if self.gone and self.is_self(p):
+            return _oserr(errno.ESRCH if kind in ("read", "sys") else errno.ENOENT, p)
+        first = self.rel(p).split("/")[0]
+        if first.isdigit() and int(first) in self.ogone:
             return _oserr(errno.ESRCH if kind in ("read", "sys") else errno.ENOENT, p)
         if idx in self.deny and self.is_proc(p):
             return _oserr(self.deny[idx], p)
@@ -345,9 +360,28 @@ class World(Shim):
             return call
         for n, (mod, _) in self._sys.items():
             setattr(mod, n, mk(n))
+        # wait(): os.waitpid says ECHILD for a process that is not our child (whatever it does: no access point);
+        # pid_exists() = os.kill(pid, 0) is a per-process system call
+        self._os = {"kill": os.kill, "waitpid": os.waitpid}
+
+        def kill2(pid, sig):
+            if sig == 0 and pid in (PID, PPID, CHILD, CHILD2, GRANDCHILD, OTHER):
+                me._hit("sys", "%s/%d/@kill" % (me.root, pid))
+                return None
+            return me._os["kill"](pid, sig)
+
+        def waitpid2(pid, flags):
+            if pid in (PID, PPID, CHILD, CHILD2, GRANDCHILD, OTHER):
+                raise ChildProcessError(errno.ECHILD, "No child processes")
+            return me._os["waitpid"](pid, flags)
+        os.kill = kill2
+        os.waitpid = waitpid2
 
     def uninstall(self):
         import glob as _glob
+        if getattr(self, "_os", None):
+            os.kill, os.waitpid = self._os["kill"], self._os["waitpid"]
+            self._os = None
         if getattr(self, "_glob", None):
             _glob.glob = self._glob
             self._glob = None
@@ -419,6 +453,7 @@ METHODS = {
     "ionice": (lambda p: p.ionice(), lambda v: isinstance(v, tuple) and len(v) == 2),
     "cpu_affinity": (lambda p: p.cpu_affinity(), lambda v: isinstance(v, list) and all(isinstance(x, int) for x in v)),
     "rlimit": (lambda p: p.rlimit(7), lambda v: isinstance(v, tuple) and len(v) == 2),
+    "wait": (lambda p: p.wait(0), lambda v: v is None),
     "is_running": (lambda p: p.is_running(), _is(bool)),
     "parent": (lambda p: p.parent(), _optproc),
     "parents": (lambda p: p.parents(), _proclist),
@@ -427,7 +462,7 @@ METHODS = {
     "as_dict": (lambda p: p.as_dict(), _is(dict)),
 }
 # later queries that must raise NoSuchProcess once the process is gone (they consult the OS on every call)
-STICKY = [m for m in METHODS if m not in ("is_running", "children", "children_rec", "parents", "as_dict")]
+STICKY = [m for m in METHODS if m not in ("is_running", "children", "children_rec", "parents", "as_dict", "wait")]
 
 
 def describe_exc(e):
@@ -448,6 +483,23 @@ def call_method(p, mname, spec=None):
         else:
             fn = lambda q: q.as_dict(attrs=attrs)           # noqa: E731
         shape = lambda v: isinstance(v, dict) and set(v) == set(attrs)   # noqa: E731
+    elif mname.startswith(("oneshot:", "oneshotc:")):
+        import psutil
+        names = mname.split(":", 1)[1].split(",")
+        swallow = mname.startswith("oneshotc:")
+
+        def fn(q):
+            ok = True
+            with q.oneshot():
+                for n in names:
+                    call, shp = METHODS[n]
+                    try:
+                        ok = shp(call(q)) and ok
+                    except psutil.Error:
+                        if not swallow:
+                            raise
+            return ok
+        shape = lambda v: v is True      # noqa: E731
     elif mname.startswith("iter:"):
         import psutil
         attrs = mname.split(":", 1)[1].split(",")
@@ -476,7 +528,7 @@ def reset_psutil(psutil, root):
     psutil._psposix.get_terminal_map.cache_clear()
 
 
-def run_case(work, kind, mname, vanish=None, deny=None, sticky=False):
+def run_case(work, kind, mname, vanish=None, deny=None, sticky=False, ovanish=None):
     """Build the world, create the Process object (no faults), then run the method under the fault
     schedule.  Returns {"out": outcome, "log": labels, "gone": bool, "after": {method: outcome}}."""
     import psutil
@@ -493,6 +545,7 @@ def run_case(work, kind, mname, vanish=None, deny=None, sticky=False):
         w.fault = w._fault
         w.vanish = vanish
         w.deny = {int(k): v for k, v in (deny or {}).items()}
+        w.ovanish = {int(k): int(v) for k, v in (ovanish or {}).items()}
         out = call_method(p, mname)
         log = w.labels()
         res = {"out": out, "log": log, "gone": w.gone}
